@@ -56,6 +56,9 @@ func (c07) Configure(r *e.RNG, tier string) e.Config {
 	c.Flags["w_gov"] = r.Range(0, 2)
 	c.Flags["w_crash"] = r.Range(0, 1)
 	c.Flags["p_delay"] = r.Range(0, 25)
+	// a fee market that is scheduled but not active yet: the base fee parameter is still what the ante
+	// handler and the state transition must both charge by
+	c.FeeEnableHeight = []int64{0, 0, 0, 4, 12, 100000}[r.Intn(6)]
 	return c
 }
 
